@@ -13,7 +13,7 @@ import itertools
 import random
 
 from ..core import Check
-from ..terms import A, I, V, C, NIL, lst, clause, call, and_, or_, then, not_, conj
+from ..terms import A, I, V, C, NIL, lst, clause, call, and_, or_, then, not_, conj, TRUE
 from .. import bodies
 from .c05 import features
 
@@ -54,12 +54,16 @@ def meta_scenarios():
     rows2 = [{"args": [I(1), A("a")], "nv": 0}, {"args": [C("f", V(0)), A("b")], "nv": 1}, {"args": [I(2), A("b")], "nv": 0}]
     scns = []
     CK = ("plain", "wrapped", "method", "partial", "object")
+    # exception types of the application's predicates; each must reach the consumer as the object that was raised,
+    # also the ones the engine itself catches for purposes of its own (AttributeError, TypeError, KeyError, UnboundLocalError)
+    EXCS = ["custom", "TypeError", "ValueError", "KeyError", "RuntimeError", "AttributeError", "IndexError", "ZeroDivisionError", "OSError",
+            "NameError", "UnboundLocalError", "AssertionError"]
     for idx, ((g, qnv), style, yields, rp) in enumerate(itertools.product([(C("k1", V(0), V(1)), 2), (C("k2", V(0), V(1)), 2), (C("k3", V(0), V(1)), 2), (C("k4", V(0), V(1)), 2)],
                                                        STYLES, (True, False), [(0, 0), (1, 1), (2, 0), (3, 2)])):
         steps = [[{"op": "load", "e": 1, "script": "P", "ow": True}],
                  [{"op": "register", "e": 1, "name": "nat", "arity": -1 if style == "variadic" else 1, "style": style, "fid": "nat", "rows": rows1,
                    "ckind": CK[idx % 5] if style == "inferred" else "plain",
-                   "raise": {"call": rp[0], "row": rp[1], "exc": ["custom", "TypeError", "ValueError", "KeyError", "RuntimeError"][(rp[0] + rp[1] + len(style) + int(yields)) % 5]}, "yields": yields}],
+                   "raise": {"call": rp[0], "row": rp[1], "exc": EXCS[(idx + rp[0]) % len(EXCS)]}, "yields": yields}],
                  [{"op": "register", "e": 1, "name": "nat2", "arity": -1 if style == "variadic" else 2, "style": style, "fid": "nat2", "rows": rows2,
                    "ckind": CK[(idx // 5 + 1) % 5] if style == "inferred" else "plain",
                    "raise": {"call": 0, "row": 0}, "yields": not yields}],
@@ -87,6 +91,38 @@ def meta_scenarios():
     return scns
 
 
+EXC_TYPES = ["custom", "TypeError", "ValueError", "KeyError", "RuntimeError", "AttributeError", "IndexError", "ZeroDivisionError", "OSError",
+             "NameError", "UnboundLocalError", "AssertionError"]
+
+
+def exception_route_scenarios():
+    """every exception type x every route by which the predicate is reached (direct goal, call/N inline and through a
+    bound variable, findall, once, negation, condition of an if-then-else, through the API): the consumer gets the very
+    object the predicate raised, after the first answer and before any"""
+    X, Y, Z = V(0), V(1), V(2)
+    script = {"d/1": [clause(C("d", X), call(C("nat", X)))],
+              "c/1": [clause(C("c", X), call(C("call", A("nat"), X)))],
+              "c2/1": [clause(C("c2", X), conj(call(C("=", Y, C("nat", X))), call(C("call", Y))))],
+              "f/1": [clause(C("f", X), call(C("findall", Y, C("nat", Y), X)))],
+              "o/1": [clause(C("o", X), conj(call(C("d", Y)), call(C("once", C("nat", X)))))],
+              "n/1": [clause(C("n", X), conj(call(C("=", X, A("in"))), not_(call(C("nat", I(7))))))],
+              "i/1": [clause(C("i", X), or_(then(conj(call(C("nat", X)), call(C("=", X, I(2)))), TRUE), call(C("=", X, A("none")))))]}
+    rows = [{"args": [I(1)], "nv": 0}, {"args": [I(2)], "nv": 0}]
+    scns = []
+    for exc in EXC_TYPES:
+        for callno, row in ((1, 1), (1, 0), (2, 1)):
+            reg = {"op": "register", "e": 1, "name": "nat", "arity": 1, "style": "explicit", "fid": "nat", "rows": rows,
+                   "raise": {"call": callno, "row": row, "exc": exc}, "yields": False}
+            for g, q in [(C("d", V(0)), 1), (C("c", V(0)), 1), (C("c2", V(0)), 1), (C("f", V(0)), 1), (C("o", V(0)), 1), (C("n", V(0)), 1), (C("i", V(0)), 1),
+                         (C("call", A("nat"), V(0)), 1), (C("findall", V(0), C("nat", V(0)), V(1)), 2)]:
+                if callno == 2 and g["n"] not in ("o", "i", "c"):
+                    continue
+                steps = [[{"op": "load", "e": 1, "script": "P", "ow": True}], [reg], [{"op": "solve", "e": 1, "r": 1, "goal": g, "qnv": q, "k": 0}],
+                         [{"op": "solve", "e": 1, "r": 2, "goal": C("nat", V(0)), "qnv": 1, "k": 0}]]
+                scns.append({"scripts": {"P": script}, "steps": steps, "keys": []})
+    return scns
+
+
 def run(tier, seed):
     chk = Check("C20", tier, seed)
     rnd = random.Random(seed)
@@ -108,6 +144,7 @@ def run(tier, seed):
         chk.machine_family("bodies-native-%d" % (i // 5000), scns[i:i + 5000], props=("AnswersAreSLD", "CleanAfterEnd"),
                            features=features, opts={"check_nlog": True})
     chk.machine_family("meta-and-raise", meta_scenarios(), features=features, opts={"check_nlog": True})
+    chk.machine_family("exception-types-by-route", exception_route_scenarios(), features=features)
     need = ["DoCallNative", "DoNativeExhausted", "DoNativeRaise", "DoCut", "DoCallFacts"]
     missing = [e for e in need if not chk.events.get(e)]
     if missing:
